@@ -117,7 +117,14 @@ CERT_PROPS = {
     "C02": {"closed", "shape", "targets", "nranges", "dranges"},
     "C03": {"shape"},
     "C04": {"closed", "shape", "targets", "nranges", "dranges"},
-    "C05": {"closed", "shape"},
+    "C05": {"sound", "closed", "shape"},
+    "C06": {"sound", "closed", "shape"},
+    "C07": {"sound", "closed", "shape"},
+    "C08": {"sound", "closed", "shape"},
+    "C09": {"sound", "closed", "shape"},
+    "C10": {"sound", "closed", "shape"},
+    "C14": {"sound", "closed", "shape"},
+    "C15": {"sound", "closed", "shape"},
     "C12": {"sound", "closed", "shape", "targets", "nranges", "dranges"},
 }
 
@@ -334,10 +341,66 @@ def untuple(x):
     return x
 
 
+def flag_witness_inputs(parsed, limit=12):
+    """Inputs aimed at a wrong backtrack flag in the DUMPED automaton (rule set Init only): a path from
+    the initial state through an accepting state to a state whose flag is false although it should be
+    true, followed by a character on which that state has no transition (and the same cut at the end
+    of input). On such an input the generated code skips the rewind."""
+    dfa = parsed.get("joined")
+    if not dfa:
+        return []
+    n0 = len(parsed["rulesets"][0]["dfa"]) if parsed.get("rulesets") else len(dfa)
+
+    def edges(i):
+        st = dfa[i]
+        out = [(c, int(t[1:])) for c, t in sorted(st["c"].items())]
+        out += [(lo, int(t[1:])) for lo, hi, t in st["r"]]
+        if st["a"]:
+            used = set(st["c"]) | {x for lo, hi, _ in st["r"] for x in (lo, hi)}
+            c = next(x for x in (0x7e, 0x21, 0x23, 0x25, 0x3b) if x not in used)
+            if not any(lo <= c <= hi for lo, hi, _ in st["r"]):
+                out.append((c, int(st["a"][1:])))
+        return [(c, t) for c, t in out if t < n0]
+    # BFS over (state, seen an accepting state strictly before)
+    from collections import deque
+    start = (0, False)
+    prev = {start: None}
+    dq = deque([start])
+    while dq:
+        s, seen = dq.popleft()
+        for c, t in edges(s):
+            nxt = (t, seen or dfa[s]["acc"] != "-")
+            if nxt not in prev:
+                prev[nxt] = ((s, seen), c)
+                dq.append(nxt)
+    outs = []
+    for (t, seen), _ in list(prev.items()):
+        if seen and not dfa[t]["bt"] and dfa[t]["acc"] == "-":
+            path = []
+            cur = (t, seen)
+            while prev[cur] is not None:
+                cur, c = prev[cur][0], prev[cur][1]
+                path.append(c)
+            path.reverse()
+            used = set(dfa[t]["c"])
+            junk = next(x for x in (0x01, 0x02, 0x7f, 0x40) if x not in used
+                        and not any(lo <= x <= hi for lo, hi, _ in dfa[t]["r"]))
+            if dfa[t]["a"] is None:
+                outs.append(path + [junk])
+            outs.append(path)
+            if len(outs) >= limit:
+                break
+    return outs
+
+
 def search_failing_input(ctx, c, projs, gen, n=80):
     """An artifact of this definition differs from the model's: look for an input on which the
     implementation departs from Spec (in this property's projection)."""
     ins = gen.inputs(c.d, n, max_len=10)
+    try:
+        ins = [(0, w) for w in flag_witness_inputs(c.impl)] + ins
+    except Exception:
+        pass
     cc = Case(c.idx, c.d, [(ct, cps, None) for ct, cps in ins])
     run_model([cc], artifacts=False)
     run_impl([cc], os.path.join(BUILD, "work_%s_search" % ctx.prop))
